@@ -126,11 +126,23 @@ def regen_tables():
         return rc, out
 
 
-def coq_make():
-    """Full .vo build (make -k): everything that still proves gets built."""
+def coq_targets(spec, pid):
+    """The .vo files this property's check needs: its property file and the modules its case
+    files import (each with everything it depends on)."""
+    t = [spec.get("props", "props/%s.v" % pid)[:-2] + ".vo"]
+    for m in re.findall(r"\b([A-Z]\w*)\b", " ".join(re.findall(r"From Ship Require Import ([^.]*)\.", spec.get("imports", "")))):
+        if os.path.exists(os.path.join(COQ, "theories", m + ".v")):
+            t.append("theories/%s.vo" % m)
+    return sorted(set(t))
+
+
+def coq_make(targets=None):
+    """Full .vo build of what the check depends on (make; never -vos/-vok).  bin/setup builds
+    everything with -k; a check only needs its own closure, so that a file of another
+    property that is slow or broken cannot block it."""
     with Lock(".lock_build"):
         write_coqproject()
-        rc, out, dt = sh(["make", "-k", "-j16"], cwd=COQ, timeout=3000)
+        rc, out, dt = sh(["make", "-k", "-j16"] + list(targets or []), cwd=COQ, timeout=3000)
         os.makedirs(WORK, exist_ok=True)
         open(os.path.join(WORK, "make.log"), "w").write(out)
         return rc, out, dt
@@ -257,8 +269,8 @@ def main_check(pid, tier, seed, replay=None):
     if rc != 0:
         problems.append(("translator", "harness/cmd/extract failed on the current source:\n" + out[-3000:]))
     # 2. proofs
-    rc, out, dt = coq_make()
-    notes.append("coq make rc=%d %.1fs" % (rc, dt))
+    rc, out, dt = coq_make(coq_targets(spec, pid))
+    notes.append("coq make (property closure) rc=%d %.1fs" % (rc, dt))
     pr = check_props(pid, spec, wd)
     if not pr["ok"]:
         # name the first failing file/lemma from the make log
